@@ -258,10 +258,68 @@ func checkGraphCaches(w *World, r *Report, ruleDirty, ruleDegrees, ruleCacheWrit
 		glob := globalPrefixes("mutated", "degrees", "dirty:", "clean:", "reset", "wrote:")
 		stop := func(h *FuncInfo) bool { return h == g.updateDegrees }
 		must := fl.Solve(Spec{Must: true, Global: glob, Stop: stop, Node: func(n ast.Node, in Facts) ([]string, []string) { return gen(n) }})
+		// `if len(removed) == 0 { return }` where every change sits beside a growth of `removed`
+		unchanged := noChangeWitness(info, fi.Decl.Body, func(n ast.Node) bool {
+			o, _ := gen(n)
+			for _, f := range o {
+				if f == "mutated" {
+					return true
+				}
+			}
+			return false
+		})
 		may := fl.Solve(Spec{Must: false, Global: glob, Stop: stop, Node: func(n ast.Node, in Facts) ([]string, []string) {
 			o, _ := gen(n)
 			return o, nil
+		}, Edge: func(b *cfg.Block, i int, cond ast.Expr, in Facts) (gen, kill []string) {
+			if cond != nil && unchanged(cond, i) {
+				kill = append(kill, "mutated", "reset")
+			}
+			return
 		}})
+		// second opinion, per path: the bad states themselves as may-facts. A change raises
+		// "owes a dirty mark / a degree recomputation", the mark or the recomputation that follows
+		// withdraws it (a batch add that does all of it inside its loop reaches the exit behind
+		// the loop either unchanged or with everything done - which "may changed, must marked"
+		// cannot tell apart). An exit is reported only when both views call it bad.
+		var badSol *Sol
+		badAt := func(ex Exit) Facts {
+			if badSol == nil {
+				badSol = fl.Solve(Spec{Must: false, Global: globalPrefixes("bad:"), Stop: stop,
+					Node: func(n ast.Node, in Facts) (g2, k2 []string) {
+						o, _ := gen(n)
+						for _, f := range o {
+							switch f {
+							case "mutated":
+								g2 = append(g2, "bad:sorted", "bad:cycle", "bad:degrees")
+							}
+						}
+						for _, f := range o {
+							switch f {
+							case "degrees":
+								k2 = append(k2, "bad:degrees")
+							case "dirty:sortedNodesDirty":
+								k2 = append(k2, "bad:sorted")
+							case "dirty:cycleCacheDirty":
+								k2 = append(k2, "bad:cycle")
+							}
+						}
+						// a statement cannot both change the tables and mark: kills of the same node win only
+						// when nothing was raised by it
+						if len(g2) > 0 {
+							k2 = nil
+						}
+						return
+					},
+					Edge: func(b *cfg.Block, i int, cond ast.Expr, in Facts) (g2, k2 []string) {
+						if cond != nil && unchanged(cond, i) {
+							k2 = append(k2, "bad:*")
+						}
+						return
+					}})
+			}
+			return badSol.AtExit(ex)
+		}
 		isQueryWithCache := false
 		n := 0
 		for _, ex := range fl.Exits() {
@@ -282,6 +340,9 @@ func checkGraphCaches(w *World, r *Report, ruleDirty, ruleDegrees, ruleCacheWrit
 			n++
 			con := fmt.Sprintf("%s#exit-after-mutation/%d", fi.Name(), n)
 			okDirty := mf.Has("dirty:sortedNodesDirty") && mf.Has("dirty:cycleCacheDirty")
+			if !okDirty && !badAt(ex).Has("bad:sorted") && !badAt(ex).Has("bad:cycle") {
+				okDirty = true
+			}
 			if !direct[fi.Obj] || isDetect(fi) {
 				// functions that only mutate through helpers which complete deferred
 				// work (DetectCycles): they recompute, the flags were set by the adder
@@ -301,7 +362,7 @@ func checkGraphCaches(w *World, r *Report, ruleDirty, ruleDegrees, ruleCacheWrit
 				if exempt != "" {
 					r.OK(ruleDegrees, con+":degrees", ex.Pos, false, "%s", exempt)
 				} else {
-					r.Check(mf.Has("degrees"), ruleDegrees, con+":degrees", ex.Pos, true,
+					r.Check(mf.Has("degrees") || !badAt(ex).Has("bad:degrees"), ruleDegrees, con+":degrees", ex.Pos, true,
 						"degrees and dependents lists are recomputed after the last change on every path to this exit",
 						"the exit at "+w.Pos(ex.Pos)+" can be reached with nodes/edges changed after the last degree recomputation: roots, leaves, dependents and the topological order are computed from stale degrees")
 				}
